@@ -372,6 +372,13 @@ def impl(c):
                         kw["keepIntervals"] = as_arg(c["keep"], c.get("labelled"))
                     if "del" in c:
                         kw["deleteIntervals"] = as_arg(c["del"], c.get("labelled"))
+                    if (len(c["hex"]) // (2 * c["w"])) % 2 == 1:
+                        # every other case the handle has a past: the same read was already made through it (round 3,
+                        # C17-v1: a reader that no longer seeks relies on the handle standing at frame 0)
+                        try:
+                            audio.readFramesAtTimes(qw.audiofile, replaceFunc=gen, **kw)
+                        except Exception:  # noqa: BLE001
+                            pass
                     try:
                         fr = audio.readFramesAtTimes(qw.audiofile, replaceFunc=gen, **kw)
                     except Exception as e:  # noqa: BLE001
